@@ -248,11 +248,17 @@ Fixpoint bytes_ltb (a b : list Z) : bool :=
   | x :: a', y :: b' => if x <? y then true else if y <? x then false else bytes_ltb a' b'
   end.
 
-(* insertion into a list sorted by key; an equal key is replaced (Go map assignment) *)
+(* insertion into a list sorted by key. An equal SCALAR key is replaced (Go map assignment). Container keys (struct, list,
+   set, map: dump tags 6 / 7) are stored by POINTER in the Go map, so two equal ones are two entries: ties are ordered by
+   the value dump (the harness sorts by key dump, then value dump) *)
+Definition ptr_key (k : list Z) : bool := match k with 6 :: _ => true | 7 :: _ => true | _ => false end.
 Fixpoint kins (k v : list Z) (l : list (list Z * list Z)) : list (list Z * list Z) :=
   match l with
   | [] => [(k, v)]
-  | (k', v') :: r => if bytes_eqb k k' then (k, v) :: r else if bytes_ltb k k' then (k, v) :: l else (k', v') :: kins k v r
+  | (k', v') :: r =>
+    if bytes_eqb k k' then
+      (if ptr_key k then (if bytes_ltb v' v then (k', v') :: kins k v r else (k, v) :: l) else (k, v) :: r)
+    else if bytes_ltb k k' then (k, v) :: l else (k', v') :: kins k v r
   end.
 
 Definition dump_map (sub : Z) (ps : list (list Z * list Z)) : list Z :=
